@@ -201,8 +201,26 @@ impl Drop for OpGuard {
     fn drop(&mut self) {
         if std::thread::panicking() {
             rec(self.tid, self.pc, HK::Unwind, None);
+            UNWINDING.with(|u| u.borrow_mut()[self.tid as usize] = true);
         }
     }
+}
+
+thread_local! {
+    /// DSL threads that are unwinding an uncaught panic (set by `OpGuard`)
+    static UNWINDING: RefCell<[bool; 8]> = RefCell::new([false; 8]);
+    /// When set, a DSL thread that unwinds drops what it owns (Arc handles, receivers, guards,
+    /// tracked values) like a real program does, i.e. it performs loom operations while it
+    /// unwinds. Only sound for DETERMINISTIC panics (a panic that is a function of the
+    /// execution: loom's own failures, "panic whenever this op is reached", "panic if this op
+    /// returned v"); a panic at the k-th reach across iterations may strike in the replayed
+    /// prefix of an iteration, where the operations of destructors would not match the
+    /// recorded decisions.
+    static REAL_DROPS: std::cell::Cell<bool> = std::cell::Cell::new(false);
+}
+
+pub fn set_real_drops(on: bool) {
+    REAL_DROPS.with(|c| c.set(on));
 }
 
 pub struct Payload {
@@ -243,17 +261,34 @@ thread_local! {
     static LAZY_INIT_YIELDS: std::cell::Cell<bool> = std::cell::Cell::new(false);
 }
 
+thread_local! {
+    /// should thread-local / lazy-static values own a loom object (an `Arc`)? Its destructor is a
+    /// loom operation, also when the value is dropped because the model is failing (C06)
+    static STATICS_OWN_ARC: std::cell::Cell<bool> = std::cell::Cell::new(false);
+}
+pub fn set_statics_own_arc(b: bool) {
+    STATICS_OWN_ARC.with(|c| c.set(b));
+}
+fn owned_arc() -> Option<loom::sync::Arc<u64>> {
+    if STATICS_OWN_ARC.with(|c| c.get()) {
+        Some(loom::sync::Arc::new(7))
+    } else {
+        None
+    }
+}
+
 pub struct TlsVal {
     key: u8,
     owner: u8,
     cell: loom::cell::UnsafeCell<u64>,
+    _arc: Option<loom::sync::Arc<u64>>,
 }
 impl TlsVal {
     fn new(key: u8) -> TlsVal {
         let owner = CUR_TID.with(|c| c.get());
         rec(owner, key as usize, HK::Note, Some(NOTE_TLS_INIT));
         TLS_INITED.with(|t| t.borrow_mut()[owner as usize][key as usize] = true);
-        TlsVal { key, owner, cell: loom::cell::UnsafeCell::new(0) }
+        TlsVal { key, owner, cell: loom::cell::UnsafeCell::new(0), _arc: owned_arc() }
     }
 }
 impl Drop for TlsVal {
@@ -283,6 +318,7 @@ pub struct LazyVal {
     key: u8,
     stamp: u64,
     cell: loom::cell::UnsafeCell<u64>,
+    _arc: Option<loom::sync::Arc<u64>>,
 }
 impl LazyVal {
     fn new(key: u8) -> LazyVal {
@@ -292,7 +328,7 @@ impl LazyVal {
             c.get()
         });
         rec(t, key as usize, HK::Note, Some(NOTE_LAZY_INIT + stamp * 16));
-        let v = LazyVal { key, stamp, cell: loom::cell::UnsafeCell::new(0) };
+        let v = LazyVal { key, stamp, cell: loom::cell::UnsafeCell::new(0), _arc: owned_arc() };
         v.cell.with_mut(|_| ());
         if LAZY_INIT_YIELDS.with(|c| c.get()) {
             // a scheduling point inside the initialiser: another thread may initialise meanwhile
@@ -354,6 +390,11 @@ struct Ctx {
 }
 
 thread_local! {
+    /// unwinding threads that dropped their loom objects for real (reach probe)
+    pub static REAL_DROP_UNWINDS: std::cell::Cell<u64> = std::cell::Cell::new(0);
+}
+
+thread_local! {
     /// how many caught-panic faults were executed (reach probe)
     pub static CAUGHT_FIRED: std::cell::Cell<u64> = std::cell::Cell::new(0);
 }
@@ -411,6 +452,11 @@ fn thread_body(env: Rc<Env>, tid: u8, initial_arcs: Vec<(usize, LArc)>) {
 
 impl Drop for Ctx {
     fn drop(&mut self) {
+        if REAL_DROPS.with(|c| c.get()) && UNWINDING.with(|u| u.borrow()[self.tid as usize]) {
+            // the thread panicked: everything it owns is dropped by the unwinding
+            REAL_DROP_UNWINDS.with(|c| c.set(c.get() + 1));
+            return;
+        }
         for hs in self.arcs.drain(..) {
             for h in hs {
                 std::mem::forget(h);
@@ -926,6 +972,7 @@ fn exec(cx: &mut Ctx, op: &Op, pc: usize) -> Option<u64> {
 
 fn model_body(p: StdArc<Program>) {
     gate_point();
+    UNWINDING.with(|u| *u.borrow_mut() = [false; 8]);
     TLS_INITED.with(|t| *t.borrow_mut() = vec![[false; 2]; MAX_THREADS]);
     LAZY_STAMP.with(|c| c.set(0));
     let nt = p.n_threads();
